@@ -8,8 +8,9 @@ from . import props_c07  # noqa: F401
 from . import props_c08  # noqa: F401
 from . import props_c10  # noqa: F401
 from . import reconsim
+from . import walksim
 
-OTHER = {'C13': reconsim}
+OTHER = {'C13': reconsim, 'C15': walksim}
 
 
 def _engine_for(prop):
